@@ -549,7 +549,10 @@ def coq_eval(name, body, timeout=600):
     path = os.path.join(WORK, name + ".v")
     with open(path, "w") as f:
         f.write(body)
-    rc, out = sh(["coqc", "-noglob", "-Q", COQDIR, "RV", path], timeout=timeout, cwd=WORK)
+    try:
+        rc, out = sh(["coqc", "-noglob", "-Q", COQDIR, "RV", path], timeout=timeout, cwd=WORK)
+    except subprocess.TimeoutExpired:
+        rc, out = 124, "TIMEOUT: coqc did not finish %s within %d s" % (path, timeout)
     for ext in (".vo", ".vok", ".vos", ".glob"):
         q = os.path.join(WORK, name + ext)
         if os.path.exists(q):
